@@ -28,7 +28,7 @@ from pyvc import spec as S          # noqa: E402
 from pyvc import props as P         # noqa: E402
 
 VENV_PY = '/venv/bin/python'
-SPEC_MODULES = ['specs.c_topology', 'specs.c_registry', 'specs.c_dicts', 'specs.c_timeline', 'specs.c_emitter',
+SPEC_MODULES = ['specs.c_topology', 'specs.c_registry', 'specs.c_runfor', 'specs.c_dicts', 'specs.c_timeline', 'specs.c_emitter',
                 'specs.c_engine', 'specs.c_store', 'specs.c_process', 'specs.c_composer']
 
 
@@ -165,6 +165,7 @@ def replay_file(prop, path):
 
 def run_check(prop, tier, seed, a, t0):
     load_specs()
+    os.environ.setdefault('PYVC_JOBS', '12')
     info = P.PROPS[prop]
     timeout_ms = 30000 if tier == 'quick' else 120000
     tasks = select(prop)
@@ -316,6 +317,27 @@ def run_check(prop, tier, seed, a, t0):
             for k, cnt in (out.get('known_findings_hit') or {}).items():
                 if cnt:
                     violations.append(('known:' + k, '', ''))
+    # ---------------- witnesses of recorded findings --------------------------------------------------------
+    witness_results = []
+    wjobs = [kf for kf in known.get('findings', []) if kf['property'] == prop and kf.get('witness')]
+    if wjobs:
+        def _run_w(kf):
+            env = dict(os.environ); env['PYTHONPATH'] = HERE
+            try:
+                pr = subprocess.run([VENV_PY, kf['witness']], cwd=HERE, env=env, capture_output=True, text=True, timeout=300)
+                return pr.returncode, (pr.stdout + pr.stderr)[-600:]
+            except subprocess.TimeoutExpired:
+                return 124, 'timeout'
+        from concurrent.futures import ThreadPoolExecutor
+        with ThreadPoolExecutor(max_workers=8) as tp:
+            wres = list(tp.map(_run_w, wjobs))
+        for kf, (rc, out) in zip(wjobs, wres):
+            witness_results.append({'id': kf['id'], 'status': kf['status'], 'witness': kf['witness'], 'exit': rc})
+            if kf['status'] == 'fixed' and rc != 0:
+                violations.append(('regression of repaired defect %s (%s): witness fails again' % (kf['id'], kf['what'][:80]),
+                                   kf['witness'], ''))
+            if kf['status'] == 'known' and rc == 1:
+                violations.append(('known:' + kf['id'], kf['witness'], ''))
     # ---------------- known findings ------------------------------------------------------------------
     kf_lines = []
     reported = []
@@ -328,11 +350,7 @@ def run_check(prop, tier, seed, a, t0):
             kf_lines.append('KNOWN-FINDING: property=%s %s' % (prop, hit['what']))
         else:
             reported.append((name, rp, suffix))
-    for kf in known.get('findings', []):
-        if kf.get('status') == 'known' and kf['property'] == prop and kf.get('always_print'):
-            line = 'KNOWN-FINDING: property=%s %s' % (prop, kf['what'])
-            if line not in kf_lines:
-                kf_lines.append(line)
+    kf_lines = sorted(set(kf_lines))
     # ---------------- evidence ---------------------------------------------------------------------------
     wall = time.time() - t0
     level = info['level']
@@ -359,6 +377,7 @@ def run_check(prop, tier, seed, a, t0):
         'bounded': {'native_contract_monitors': bounded['contracts'],
                     'scenario_drivers': (scenario or {}).get('drivers', []),
                     'label': 'bounded stand-in, never counted as proved'},
+        'witnesses_of_recorded_findings': witness_results,
         'undecided': undecided,
     }
     ev = {'property_id': prop, 'tier': tier, 'seed': seed, 'level': level, 'coverage': cov,
